@@ -280,6 +280,7 @@ func (fx *FnCtx) runAll() {
 		p.cover("pre", "")
 		p.runBlock(fx.fn.Blocks[0], nil)
 	}
+	fx.refinePath()
 	for _, head := range fx.loopList {
 		q := fx.loopPath(head)
 		if q != nil {
@@ -882,6 +883,7 @@ func (p *Path) doReturn(r *ssa.Return) {
 	}
 	p.cover("return", site)
 	p.checkPost(site, vars, false)
+	p.refinePost(site, vars)
 	p.checkLoopExit(site, vars)
 	p.finish()
 }
